@@ -36,10 +36,44 @@ def consulted_premises(func, flow, prem):
     return toks
 
 
+def _single_value(flow, e, depth=0):
+    while isinstance(e, ast.Name) and flow.is_local(e.id) and depth < 4:
+        defs = [d for d in flow.defs.get(e.id, []) if d[0] == 'value']
+        if len(defs) != 1 or len(flow.defs.get(e.id, [])) != 1:
+            break
+        e = defs[0][1]
+        depth += 1
+    while isinstance(e, ast.Call) and isinstance(e.func, ast.Name) and e.func.id in ('tuple', 'list') and len(e.args) == 1:
+        e = e.args[0]
+    return e
+
+
+def _selects_subset(flow, e, prem):
+    """`(prem[i].hyps for i in IDX)` where IDX is not the whole index range of prem: hypotheses of a selection only"""
+    e = _single_value(flow, e)
+    if not isinstance(e, (ast.GeneratorExp, ast.ListComp)) or len(e.generators) != 1:
+        return False
+    g = e.generators[0]
+    idx_vars = {x.id for x in ast.walk(g.target) if isinstance(x, ast.Name)}
+    indexed = any(isinstance(x, ast.Subscript) and isinstance(x.value, ast.Name) and x.value.id == prem and
+                  isinstance(x.slice, ast.Name) and x.slice.id in idx_vars for x in ast.walk(e.elt))
+    if not indexed:
+        return bool(g.ifs) and any(isinstance(x, ast.Name) and x.id == prem for x in ast.walk(g.iter))     # filtered iteration
+    it = _single_value(flow, g.iter)
+    whole = isinstance(it, ast.Call) and isinstance(it.func, ast.Name) and it.func.id == 'range' and len(it.args) == 1 and \
+        isinstance(it.args[0], ast.Call) and isinstance(it.args[0].func, ast.Name) and it.args[0].func.id == 'len' and \
+        isinstance(it.args[0].args[0], ast.Name) and it.args[0].args[0].id == prem
+    return not whole or bool(g.ifs)
+
+
 def carried_premises(flow, call, prem):
     toks = set()
     for a in call.args[1:]:
-        for p in flow.resolve(a.value if isinstance(a, ast.Starred) else a):
+        v = a.value if isinstance(a, ast.Starred) else a
+        if _selects_subset(flow, v, prem):
+            toks.add('[subset]')
+            continue
+        for p in flow.resolve(v):
             if path_base(p) == prem and '.hyps' in p:
                 toks.add(_token(p, prem))
     return toks
@@ -85,6 +119,60 @@ def hyps_rule(repo, rule_id, scope, floor):
                 '; '.join(bad) + ' -- the expansion keeps them (kernel rules do), so evaluation claims a stronger sequent',
                 f.loc)
     res.info['eval_overrides_in_scope'] = n_evals
+    return res
+
+
+# confirmed exceptions: macro name -> reason
+USES_EXEMPT = {
+    'verit_subproof': 'the premises before the last are the assumptions of the sub-proof: their formulas are discharged into the clause, '
+                      'and only the hypotheses of the last premise that are not discharged remain (checked by R2 on that premise)',
+}
+
+
+def expansion_uses_rule(repo, rule_id, scope, floor):
+    """The expansion of a macro proves its result with kernel rules from the premises it uses, so the result
+    has the hypotheses of all of them.  An evaluation that constructs `Thm(prop, <hyps>)` must therefore
+    carry the hypotheses of every premise the expansion touches - whether or not the evaluation itself looks
+    at that premise."""
+    res = RuleResult(rule_id, 'a constructed evaluation result carries the hypotheses of every premise the expansion uses', floor=floor)
+    for mi in macro_index(repo):
+        if mi.eval is None or not scope(mi):
+            continue
+        gp = mi.cls.methods.get('get_proof_term')
+        if gp is None:
+            continue
+        prem_e, prem_g = premise_param(mi.eval), premise_param(gp)
+        if not prem_e or not prem_g:
+            continue
+        fe, fg = flow_of(mi.eval.node), flow_of(gp.node)
+        used = set()
+        for x in walk_no_nested(gp.node):
+            if isinstance(x, (ast.Name, ast.Subscript, ast.Attribute)) and isinstance(getattr(x, 'ctx', None), ast.Load):
+                for pth in fg.resolve(x):
+                    if path_base(pth) == prem_g:
+                        used.add(_token(pth, prem_g))
+        used.discard('')
+        rets = [(r, r.value) for r in returns_of(mi.eval.node) if isinstance(r.value, ast.Call) and call_name(r.value) == 'Thm']
+        if not rets or not used:
+            continue
+        bad = []
+        for r, call in rets:
+            carried = carried_premises(fe, call, prem_e)
+            if '[*]' in carried or '' in carried:
+                continue
+            missing = sorted(t for t in used if t not in carried)
+            if missing:
+                bad.append('line %d `%s` carries the hypotheses of %s only, the expansion uses %s' % (
+                    r.lineno, src(call, 50), ', '.join(prem_e + t for t in sorted(carried)) or 'no premise',
+                    ', '.join(prem_g + t for t in sorted(used))))
+        ex = next((USES_EXEMPT[n] for n in mi.names if n in USES_EXEMPT), None)
+        if bad and ex:
+            res.add('%s :: eval :: hyps-of-used-premises' % mi.key, True, 'confirmed exception: ' + ex, mi.eval.loc, nontrivial=False)
+            continue
+        res.add('%s :: eval :: hyps-of-used-premises' % mi.key, not bad,
+                'every constructed result carries the hypotheses of all premises (or of those the expansion uses)' if not bad else
+                '; '.join(bad) + ' -- the expansion proves the result under the hypotheses of all of them, the evaluation claims it under fewer',
+                mi.eval.loc)
     return res
 
 
